@@ -84,7 +84,7 @@ def run(chk):
     sims = []
     for i in range(n):
         flavour = rng.choice(['transfer', 'transfer', 'terminate', 'abort'])
-        sim, sent, meta = sc.run_scenario(rng, flavour, tier)
+        sim, sent, meta = sc.run_scenario(rng, flavour, tier, nqueries=rng.choice([2, 6, 10, 16]))
         nsig = sum(len(o['sigs']) for (_w, _e, o) in sim.log)
         chk.case({'cfg': [meta['cfg_a'], meta['cfg_b']], 'flavour': flavour, 'signals': nsig,
                   'h': hash(json.dumps(sim.a.events) + json.dumps(sim.b.events))}, nontrivial=nsig > 2, sample=(i < 2))
